@@ -174,8 +174,11 @@ def depth1(seed_name):
         S = U.seeds()
         if '#' in seed_name:
             base, fam = seed_name.split('#')
-            seed = S[base]
-            if fam == 'compact2':
+            seed = S[base] if base != 'Sthr' else None
+            if base == 'Sthr':
+                # threshold family: payload size fam around one of the differ's size cut-offs
+                seed, states = U.threshold_family(int(fam))
+            elif fam == 'compact2':
                 one, two = U.two_edits(seed, QUICK_COMPACT)
                 states = one + two
                 _split[seed_name] = len(one)
@@ -243,12 +246,13 @@ def config_classes():
 
 
 def runs_plan(tier):
-    focus = [('S45#focus:%s' % f, (KEY_CONFIGS[0], KEY_CONFIGS[4]) if tier == 'quick' else tuple(KEY_CONFIGS)) for f in ('outputs', 'source', 'meta', 'attachments')]
+    focus = [('S45#focus:%s' % f, (KEY_CONFIGS[0], KEY_CONFIGS[4]) if tier == 'quick' else tuple(KEY_CONFIGS)) for f in ('outputs', 'outsim', 'source', 'meta', 'attachments')]
     focus.append(('Sprev#focus:prevmeta', (KEY_CONFIGS[0], KEY_CONFIGS[4], KEY_CONFIGS[2])))
     focus += [('SprevL#focus:prevatt', (KEY_CONFIGS[0], KEY_CONFIGS[4])), ('SprevR#focus:prevatt', (KEY_CONFIGS[0], KEY_CONFIGS[4])), ('Sprev#focus:prevatt', (KEY_CONFIGS[0],)),
               ('S44#focus:upgrade', (KEY_CONFIGS[0], KEY_CONFIGS[4], KEY_CONFIGS[2]))]
     focus += [('S45#focus:cellmix0', (KEY_CONFIGS[0], KEY_CONFIGS[4])), ('S45#focus:cellmix2', (KEY_CONFIGS[0], KEY_CONFIGS[4])),
               ('S45#lineruns3', (KEY_CONFIGS[4], KEY_CONFIGS[2], KEY_CONFIGS[0]))]
+    focus += [('Sthr#%d' % n, (KEY_CONFIGS[0], KEY_CONFIGS[4])) for n in (9, 10, 63, 64)]
     if tier == 'quick':
         return focus + [('S45#cellruns3', (KEY_CONFIGS[0], KEY_CONFIGS[4])), ('S45#outruns2', (KEY_CONFIGS[0], KEY_CONFIGS[4], KEY_CONFIGS[6]))]
     focus += [('S44#focus:%s' % f, (KEY_CONFIGS[0], KEY_CONFIGS[4])) for f in ('outputs', 'source', 'meta', 'attachments')]
@@ -256,7 +260,7 @@ def runs_plan(tier):
 
 
 def _runs_thorough():
-    return [('S45#cellruns3', tuple(KEY_CONFIGS)), ('S44#cellruns3', (KEY_CONFIGS[0], KEY_CONFIGS[4], KEY_CONFIGS[2])), ('Sempty#cellruns3', (KEY_CONFIGS[0], KEY_CONFIGS[4])),
+    return [('Sthr#%d' % n, (KEY_CONFIGS[0], KEY_CONFIGS[4], KEY_CONFIGS[6])) for n in (11, 65, 999, 1000, 1001)] + [('S45#cellruns3', tuple(KEY_CONFIGS)), ('S44#cellruns3', (KEY_CONFIGS[0], KEY_CONFIGS[4], KEY_CONFIGS[2])), ('Sempty#cellruns3', (KEY_CONFIGS[0], KEY_CONFIGS[4])),
             ('S45#outruns3', (KEY_CONFIGS[0], KEY_CONFIGS[4], KEY_CONFIGS[5], KEY_CONFIGS[6], KEY_CONFIGS[7]))]
 
 
